@@ -275,11 +275,12 @@ def execute(case):
             if got[:2] != want[:2] and not (got[0] == "exc" and want[0] == "exc" and got[1] == want[1]):
                 if faulted and "OSError" in str(got):
                     # the injected I/O error was reported to a caller (or captured by user code that turns the exceptions
-                    # of its sub-calls into data): an operation hit by a fault may fail; nothing more is judged here
+                    # of its sub-calls into data): an operation hit by a fault may fail.  The outcome of this round is not
+                    # judged; the records that were stored are - a storage failure must not become a call's recorded outcome
                     bump("rounds_failed_by_read_fault")
+                else:
+                    viol.append(core.violation("root-outcome-differs", feats, {"got": got, "expected": want, "round": ri}))
                     break
-                viol.append(core.violation("root-outcome-differs", feats, {"got": got, "expected": want, "round": ri}))
-                break
             for key in sorted(calls):
                 bump("records_compared")
                 r, e = res["records"].get(key), res["expected"][key]
